@@ -56,12 +56,12 @@ EBit4 == EBit(4)
 PatCode(P, k) == LET t == IF k = 3 THEN EBit3 ELSE IF k = 4 THEN EBit4 ELSE EBit(k)
                      F(e) == t[e]
                  IN SumSet(F, P)
+EBitOf(k) == IF k = 3 THEN EBit3 ELSE IF k = 4 THEN EBit4 ELSE EBit(k)
+PatOfCode(c, k) == {e \in EdgeUniverse(k) : (c \div EBitOf(k)[e]) % 2 = 1}
 \* code |-> class id, 0 for a pattern that does not connect 1..k (index = code + 1)
-IdTab(k) == LET pats == [P \in SUBSET EdgeUniverse(k) |-> PatCode(P, k)]
-                byc  == [c \in 0..(Pow(2, Cardinality(EdgeUniverse(k))) - 1) |-> CHOOSE P \in DOMAIN pats : pats[P] = c]
-            IN [i \in 1..Pow(2, Cardinality(EdgeUniverse(k))) |->
-                   LET P == byc[i - 1] IN
-                   IF Connected(P, k) THEN Min({PatCode(Q, k) : Q \in Orbit(P, k)}) ELSE 0]
+IdTab(k) == [i \in 1..Pow(2, Cardinality(EdgeUniverse(k))) |->
+                LET P == PatOfCode(i - 1, k) IN
+                IF Connected(P, k) THEN Min({PatCode(Q, k) : Q \in Orbit(P, k)}) ELSE 0]
 IdTab3 == IdTab(3)
 IdTab4 == IdTab(4)
 ClassId(P, k) == (IF k = 3 THEN IdTab3 ELSE IF k = 4 THEN IdTab4 ELSE IdTab(k))[PatCode(P, k) + 1]
